@@ -205,11 +205,12 @@ def _work(task):
                 for nk, nv in ctx.notes.items():
                     st["notes"][nk] = st["notes"].get(nk, 0) + nv
                 for clause, detail in ctx.fails:
-                    if clause not in per_clause:
-                        per_clause[clause] = {"clause": clause, "case": case, "layer": layer.name,
-                                              "policies": [pol], "detail": detail}
-                    else:
-                        per_clause[clause]["policies"].append(pol) if pol not in per_clause[clause]["policies"] else None
+                    gk = (clause, detail.get("_key"))      # one record per clause (and per _key when given)
+                    if gk not in per_clause:
+                        per_clause[gk] = {"clause": clause, "case": case, "layer": layer.name,
+                                          "policies": [pol], "detail": detail}
+                    elif pol not in per_clause[gk]["policies"]:
+                        per_clause[gk]["policies"].append(pol)
             st["fails"].extend(per_clause.values())
         except Watchdog:
             st["harness_errors"].append({"case": case, "error": "stray watchdog"})
